@@ -144,6 +144,7 @@ def run(tier, seed):
     if abs(float(got[0]) - float(fr(row[7])) * S_SUS * (1 + 1e-9)) / max(1.0, abs(float(got[0]))) <= 1e-11:
         raise MachineryError("negative control failed")
     physical(ck, rng, 40 if tier == "quick" else 600)
+    shipped_defaults(ck)
     ck.cov["rule"] = ("one case = one distinct TLC-visited table state (n, W, K, eccentricity table, inclination table) replayed through the real "
                       "calculate_terms/collapse_modes, or one physical configuration of the quick_tidal_dissipation identities; non-trivial = non-zero sums")
     ck.assumptions += ["table replay uses the undecorated (py_func) bookkeeping; the jitted path and the shipped tables are exercised through quick_tidal_dissipation",
@@ -227,6 +228,31 @@ def physical(ck, rng, nstates):
         if rheo != "voigt" and H < 0 and abs(H) > 1e-12 * sc:
             ck.violation({"clause": "non_negative"}, "negative tidal heating %r for a passive rheology: %s" % (H, det), det)
     ck.notes["physical_worst_energy_identity_residual"] = worst
+
+
+def shipped_defaults(ck):
+    """the CPL/CTL laws as SHIPPED (default configuration) are passive: a world built with `use_ctl` and no explicit time lag must
+    not have negative tidal heating (the exact mode sums of Modes.tla are >= 0 whenever every -Im k(f) is)"""
+    import logging
+    logging.disable(logging.WARNING)
+    from TidalPy.structures import build_world, build_from_world
+    from TidalPy.structures.orbit import PhysicsOrbit
+    base, star = build_world("earth_simple"), build_world("55cnc")
+    for use_ctl in (False, True):
+        w = build_from_world(base, new_config={"force_spin_sync": False, "type": "simple_tidal", "mass": 5.972e24, "slices": 100,
+                                               "tides": {"model": "global_approx", "use_ctl": use_ctl, "eccentricity_truncation_lvl": 2, "max_tidal_order_l": 2, "obliquity_tides_on": False}})
+        s2 = build_from_world(star, new_config={})
+        PhysicsOrbit(s2, tidal_host=s2, tidal_bodies=w)
+        n = w.orbital_frequency
+        for spin_ratio in (1.0, 1.5, 0.4):
+            w.set_state(eccentricity=0.1, spin_frequency=spin_ratio * n)
+            H = float(np.asarray(w.tidal_heating_global).ravel()[0])
+            ck.case(("shipped_default", use_ctl, spin_ratio), True)
+            det = {"use_ctl": use_ctl, "fixed_q": w.fixed_q, "fixed_dt": w.fixed_dt, "spin/n": spin_ratio, "e": 0.1}
+            if not H >= 0.0:
+                ck.violation({"clause": "non_negative_heating", "model": "ctl_default" if use_ctl else "cpl_default"},
+                             "a %s world built with the shipped default dissipation parameters (fixed_q = %r, fixed_dt = %r) has tidal heating %r < 0 at e = 0.1, spin/n = %g" % (
+                                 "CTL" if use_ctl else "CPL", w.fixed_q, w.fixed_dt, H, spin_ratio), det)
 
 
 def replay(path):
